@@ -436,6 +436,14 @@ func (e *kvElection) endSupersededTerm(rev uint64) bool {
 			e.notifyDemoted("superseded_by_own_reacquisition")
 		}
 	}
+	// Not leading (any more): an answer can still be history. The revision a
+	// follower remembers is the latest it has seen of the key - its own last
+	// record, or what the watcher and the periodic check observed since. A
+	// write of ours that is older than that has been replaced already (the same
+	// revision is that very write, seen through the watcher before its answer).
+	if rev < e.revision.Load() {
+		return false
+	}
 	return true
 }
 
